@@ -55,6 +55,18 @@ CLAIMED['C11'] = dict(
     note=NOTE_COMMON + 'CPython object identity and aliasing are observed, not modelled.',
     technique='Lean 4 proof over translator-regenerated cloning functions + per-run observation of object identity')
 
+CLAIMED['C04'] = dict(
+    text='Lean theorems over the tables regenerated from passes.py on every run: every constant-folding rule is '
+         'sound at every width (both-constant & | ^ n, ~; the one-constant 1-bit decision table const/wire/inverter '
+         'kernel-checked in full), CSE reorders arguments only of ops that are commutative in the documented semantics, '
+         'table consistency. Whole-pass preservation (each pass and optimize, on word-level / synthesized / NAND / AIG '
+         'blocks, repeated application, I/O kept, result well-formed, eliminated registers started at their settled '
+         'constant) is decided by evaluating both netlists in the Lean Spec model. PARTIAL: the netlist-level '
+         'refinement theorems (wire/slice elision, dead-logic removal, CSE merge) are not yet proved.',
+    design='4 C04',
+    note=NOTE_COMMON + 'hash()-based argument sort of CSE is modelled as an arbitrary order.',
+    technique='Lean 4 proof over translator-regenerated folding tables + netlist evaluation in the Lean Spec model')
+
 NOT_YET = {}
 
 
